@@ -1,11 +1,11 @@
 package engine
 
 import (
-	"go/constant"
-	"os"
-	"go/types"
 	"fmt"
+	"go/constant"
 	"go/token"
+	"go/types"
+	"os"
 	"sort"
 	"strings"
 
@@ -325,7 +325,6 @@ func impliedByPredicate(f Fact, depth int) []Fact {
 	return out
 }
 
-
 // predicateOf: when t is the (k-th) boolean result of a static call of a repository function,
 // returns that function, the result index and the call.
 func predicateOf(t *Term) (*ssa.Function, int, *ssa.Call, bool) {
@@ -505,7 +504,7 @@ func Entry(fn *ssa.Function) Point { return Point{fn.Blocks[0], 0} }
 
 // ReachOpts configures CanReach.
 type ReachOpts struct {
-	CutInstr func(ssa.Instruction) bool            // paths stop at (before executing) these instructions
+	CutInstr func(ssa.Instruction) bool             // paths stop at (before executing) these instructions
 	CutEdge  func(from *ssa.BasicBlock, k int) bool // these CFG edges are removed
 }
 
